@@ -172,6 +172,26 @@ def origin_slots(ctx, ht, rule):
         raise AnalysisError('origin slots of the fresh header not found')
 
 
+def _factors(f, e, depth=0):
+    """sorted factor texts of a product, with locals that are assigned once (also by tuple unpacking) resolved."""
+    if isinstance(e, ast.BinOp) and isinstance(e.op, ast.Mult):
+        return sorted(_factors(f, e.left, depth) + _factors(f, e.right, depth))
+    if isinstance(e, ast.Name) and depth < 4:
+        defs = []
+        for a in ast.walk(f.node):
+            if isinstance(a, ast.Assign) and len(a.targets) == 1:
+                t = a.targets[0]
+                if isinstance(t, ast.Name) and t.id == e.id:
+                    defs.append(a.value)
+                elif isinstance(t, ast.Tuple) and isinstance(a.value, ast.Tuple) and len(t.elts) == len(a.value.elts):
+                    for t_, v_ in zip(t.elts, a.value.elts):
+                        if isinstance(t_, ast.Name) and t_.id == e.id:
+                            defs.append(v_)
+        if len(defs) == 1 and e.id not in f.params:
+            return _factors(f, defs[0], depth + 1)
+    return [U(e).replace(' ', '')]
+
+
 def allocation(ctx, rule):
     """C04.3: header arrays are allocated for the output grid on every path on which the geometry can be a plain
     regular 3D grid."""
@@ -189,8 +209,8 @@ def allocation(ctx, rule):
             v = e.binding['n_traces']
             n += 1
             if not isinstance(v, ast.Name):
-                txt = U(v).replace(' ', '')
-                if 'len(self.ilines)*len(self.xlines)' in txt or 'len(self.geom.ilines)*len(self.geom.xlines)' in txt:
+                fs = _factors(f, v)
+                if fs in (['len(self.ilines)', 'len(self.xlines)'], ['len(self.geom.ilines)', 'len(self.geom.xlines)']):
                     ctx.ok(rule, f, e.call, 'arrays allocated for the output grid')
                 else:
                     ctx.fail(rule, f, enclosing_stmt(e.call), 'header arrays are allocated with `%s`, not the output grid' % U(v),
@@ -202,8 +222,10 @@ def allocation(ctx, rule):
                 if d is None:
                     bad = ('unknown', facts)
                     break
-                dt = d.replace(' ', '')
-                grid = dt in ('len(self.geom.ilines)*len(self.geom.xlines)', 'len(self.geom.xlines)*len(self.geom.ilines)')
+                try:
+                    grid = _factors(f, ast.parse(d, mode='eval').body) == ['len(self.geom.ilines)', 'len(self.geom.xlines)']
+                except SyntaxError:
+                    grid = False
                 if grid:
                     continue
                 # a source-frame count is acceptable only where the geometry cannot be a plain regular 3D grid
